@@ -11,13 +11,16 @@ CHECKS = {
     "C19": {
         "engines": NATIVE,
         "level": "exploration",
-        "rule": "programs: statement snippets, composed corpus programs (as scripts and as modules), failing programs, 8 module graphs "
-                "(chains, diamond with re-exports / export * / export * as, default + namespace imports, live bindings, missing / "
-                "throwing / syntactically broken dependencies), 8 order programs with a scripted host; each driven through prepare+step, "
-                "eval, step with interleaved read-only host calls, C API tsrun_step loop and C API tsrun_run, comparing the full "
-                "conversation trace (import requests, order ids and payloads, result, export table, exported-function calls, console). "
-                "8 module texts are compared across the roles main / provided dependency / internal source module. Every comparison is "
-                "a distinct (program, entry point) or (module, role) pair",
+        "rule": "programs: statement snippets, composed corpus programs (as scripts and as modules), failing programs, 8 module"
+                " graphs (chains, diamond with re-exports / export * / export * as, default + namespace imports, live bindings,"
+                " missing / throwing / syntactically broken dependencies), 11 order programs with a scripted host (incl. "
+                "import-then-re-export of a native binding); each driven through prepare+step, eval, step with interleaved "
+                "read-only host calls, C API tsrun_step loop and C API tsrun_run, comparing the full conversation trace (import"
+                " requests, order ids and payloads, result, export table, exported-function calls, console), followed on the "
+                "same interpreter by an observer script (typeof of every name the program imported) and by a second run of the "
+                "program, whose traces are compared too. 8 module texts are compared across the roles main / provided "
+                "dependency / internal source module. Every comparison is a distinct (program, entry point) or (module, role) "
+                "pair",
         "floor": {"quick": 800, "thorough": 2000},
         "technique": "runtime monitoring: pairwise trace-equality oracle across entry points and module roles with one scripted host, "
                      "including the C API called through extern \"C\"",
@@ -57,12 +60,15 @@ CHECKS = {
     "C05": {
         "engines": NATIVE,
         "level": "exploration",
-        "rule": "source texts: 52 nesting/length families (brackets of every kind, unary/binary/conditional/arrow/template chains, "
-                "type-annotation nesting, call/member chains, declarations, patterns, long tokens) at doubling depths 2..16384 "
-                "(thorough: ..131072); every prefix, single-token deletion, duplication, swap and vocabulary replacement of the "
-                "statement snippets, the TypeScript pair sources and composed corpus programs; token soups over a 130-token "
-                "vocabulary; random UTF-8 with hostile escapes; escape forms x literal contexts. Each text is lexed, parsed and "
-                "compiled in a forked child with an 8 MiB stack; every text is distinct by construction modulo vocabulary collisions",
+        "rule": "source texts: 82 nesting/length families (brackets of every kind, unary/binary/conditional/arrow/template "
+                "chains, type-annotation nesting, call/member chains, declarations, patterns, long tokens, wide literals / "
+                "parameter lists / class bodies) and 135 speculation families (15 openers after which the parser must guess - "
+                "parenthesis that may start arrow parameters, typed / async / generic variants, array and object patterns, "
+                "template holes - x 9 ways the construct can end) at doubling depths 2..16384 (thorough: ..131072); every "
+                "prefix, single-token deletion, duplication, swap and vocabulary replacement of the statement snippets, the "
+                "TypeScript pair sources and composed corpus programs; token soups over a 130-token vocabulary; random UTF-8 "
+                "with hostile escapes; escape forms x literal contexts. Each text is lexed, parsed and compiled in a forked "
+                "child with an 8 MiB stack; every text is distinct by construction modulo vocabulary collisions",
         "floor": {"quick": 40000, "thorough": 400000},
         "unit_timeout": {"default": 1500},
         "technique": "runtime monitoring: process-exit oracle (panic / signal) in forked children plus H2 front-end work counters "
@@ -105,12 +111,15 @@ CHECKS = {
     "C02": {
         "engines": NATIVE,
         "level": "exploration",
-        "rule": "programs = single atom cells (every built-in that allocates while holding inputs: callbacks, getters, proxies, "
-                "iterators, JSON, Map/Set, regexp, string/array methods with freshly allocated otherwise-unreferenced arguments; the "
-                "pure operator matrix is thinned) + statement-level snippets + composed programs of the shared corpus; each program "
-                "is run with the collector off and under thresholds 1,2,3,5,7,100 and a forced collect() before every step, and for "
-                "a subset under a single forced collect() at every individual step. A (program, schedule) pair is non-trivial when "
-                "the H1 counters show that a collection swept at least one object during the run; pairs are distinct by construction",
+        "rule": "programs = single atom cells (every built-in that allocates while holding inputs: callbacks, getters, proxies,"
+                " iterators, JSON, Map/Set, regexp, string/array methods with freshly allocated otherwise-unreferenced "
+                "arguments; the pure operator matrix is thinned) + statement-level snippets + composed programs of the shared "
+                "corpus; each program is run with the collector off and under thresholds 1,2,3,5,7,100 and a forced collect() "
+                "before every step, and for a subset under a single forced collect() at every individual step; plus the await /"
+                " concurrency programs of C07 driven by the scripted order host (immediate and deferred answers) under "
+                "thresholds 1,2,3,5,7 with and without collect() after every host action, compared with the same conversation "
+                "with the collector off. A (program, schedule) pair is non-trivial when the H1 counters show that a collection "
+                "swept at least one object during the run; pairs are distinct by construction",
         "exhaustive": "every inter-step collection point of the subset of short programs (see observed.programs_with_every_collection_point)",
         "floor": {"quick": 20000, "thorough": 100000},
         "unit_timeout": {"default": 900},
@@ -149,16 +158,19 @@ CHECKS = {
     "C06": {
         "engines": NATIVE,
         "level": "exploration",
-        "rule": "programs: 78 call paths (plain / function-expression / arrow / closure calls, object, class, static and super methods, "
-                "constructors incl. derived and Reflect.construct, field initialisers, bound functions, call/apply/Reflect.apply, getters "
-                "and setters of every flavour, valueOf/toString/Symbol.toPrimitive coercions, proxy traps, every callback-taking array / "
-                "string / JSON / Map / Set / Promise built-in, tagged templates, custom iterators through for-of / spread / destructuring, "
-                "generators incl. yield*, default parameters, computed keys, Symbol.hasInstance, async functions) x {control, a "
-                "200000-iteration loop in the callee, unbounded recursion through the path, recursion to depth 20000 (thorough: 100000)}; "
-                "17 non-terminating programs; 66 length/count-taking built-ins x 15 size arguments up to 2^53, NaN, negative, fractional "
-                "and infinite; 19 recursive built-ins on data nested 100..100000 (thorough: 10^6) deep. Every program runs in a forked "
-                "child under a host that counts steps and reads call_depth() before every step. A case is non-trivial when the child "
-                "answered or died (not cut by the wall-clock watchdog); cases are distinct by construction",
+        "rule": "programs: 78 call paths (plain / function-expression / arrow / closure calls, object, class, static and super "
+                "methods, constructors incl. derived and Reflect.construct, field initialisers, bound functions, "
+                "call/apply/Reflect.apply, getters and setters of every flavour, valueOf/toString/Symbol.toPrimitive coercions,"
+                " proxy traps, every callback-taking array / string / JSON / Map / Set / Promise built-in, tagged templates, "
+                "custom iterators through for-of / spread / destructuring, generators incl. yield*, default parameters, "
+                "computed keys, Symbol.hasInstance, async functions) x {control, a 200000-iteration loop in the callee, "
+                "unbounded recursion through the path, recursion to depth 20000 (thorough: 100000)}; 17 non-terminating "
+                "programs; 66 length/count-taking built-ins x 15 size arguments up to 2^53, NaN, negative, fractional and "
+                "infinite; 34 two-argument built-ins (slice / splice / substr / substring / copyWithin / fill / lastIndexOf / "
+                "Date.UTC / Date constructor / setters ...) x 15 x 15 value pairs; 19 recursive built-ins on data nested "
+                "100..100000 (thorough: 10^6) deep. Every program runs in a forked child under a host that counts steps and "
+                "reads call_depth() before every step. A case is non-trivial when the child answered or died (not cut by the "
+                "wall-clock watchdog); cases are distinct by construction",
         "exhaustive": "every call path x 4 variants; every size-taking built-in x 15 sizes",
         "floor": {"quick": 1000, "thorough": 1000},
         "unit_timeout": {"default": 1500},
@@ -177,14 +189,17 @@ CHECKS = {
     "C07": {
         "engines": NATIVE,
         "level": "exploration",
-        "rule": "48 await-position programs (one or more `await order()` inside try / catch / finally with pending return, throw, "
-                "break, continue; loops; for-of over arrays and generators; methods using this/super after the await; constructors' "
-                "callees; nested async calls 2-4 deep; destructuring defaults; template literals; arguments; conditional and logical "
-                "operands; compound assignment; switch; closures capturing block-scoped variables across the await; error responses) "
-                "and 11 programs with several host promises outstanding, each run under 10-36 host policies (immediate answers, "
-                "answers by a promise settled later, alternating, 1-3 spurious steps, oldest/newest-first, batched and shuffled "
-                "settlement, collect() after every host action, GC thresholds 0/1/3). A run is non-trivial when the interpreter "
-                "suspended to the host at least once; (program, policy) pairs are distinct by construction",
+        "rule": "85 await-position programs (one or more `await order()` inside try / catch / finally with pending return, "
+                "throw, break, continue; loops; for-of over arrays and generators; methods using this/super after the await; "
+                "constructors' callees; nested async calls 2-4 deep; destructuring defaults; template literals; arguments; "
+                "conditional and logical operands; compound assignment; switch; closures capturing block-scoped variables "
+                "across the await; error responses; caller-frame temporaries live across a callee's suspension; arguments "
+                "objects; finally blocks with pending completions at several depths; iterators, labels, private fields, getters"
+                " / setters as callees) and 11 programs with several host promises outstanding, each run under 10-36 host "
+                "policies (immediate answers, answers by a promise settled later, alternating, 1-3 spurious steps, "
+                "oldest/newest-first, batched and shuffled settlement, collect() after every host action, GC thresholds 0/1/3)."
+                " A run is non-trivial when the interpreter suspended to the host at least once; (program, policy) pairs are "
+                "distinct by construction",
         "exhaustive": "every await-position class of the catalogue x the enumerated policies",
         "floor": {"quick": 400, "thorough": 800},
         "technique": "runtime monitoring: metamorphic oracle (in-program synchronous stand-in vs real host suspension under many host "
@@ -199,13 +214,16 @@ CHECKS = {
     "C08": {
         "engines": NATIVE,
         "level": "exploration",
-        "rule": "16 protocol programs with 1..6 orders (sequential and dependent awaits, Promise.all/race/any/allSettled over host "
-                "promises, error responses, fire-and-forget, nested async functions, the same promise awaited twice) under ALL "
-                "combinations of: which of the first three orders are answered by a promise settled later (8 masks) x settlement "
-                "order (oldest/newest first, shuffles) x one-at-a-time vs batched settlement x 0/2 spurious steps x host misuse "
-                "(none / answer to an unknown id / late duplicate answer / answer ahead of issue), at GC thresholds 1 and default, "
-                "with collect() after host actions; plus the 59 await/concurrency programs of C07 under a reduced policy set. A run "
-                "is non-trivial when at least one suspension was observed; (program, policy) pairs are distinct by construction",
+        "rule": "21 protocol programs with 1..6 orders (sequential and dependent awaits, Promise.all/race/any/allSettled over "
+                "host promises, races whose inputs are tagged in the payload and mixed with unrelated never-settling promises -"
+                " the ledger then demands that the order whose promise the host settled first is never reported cancelled and "
+                "every other race input is -, error responses, fire-and-forget, nested async functions, the same promise "
+                "awaited twice) under ALL combinations of: which of the first three orders are answered by a promise settled "
+                "later (8 masks) x settlement order (oldest/newest first, shuffles) x one-at-a-time vs batched settlement x 0/2"
+                " spurious steps x host misuse (none / answer to an unknown id / late duplicate answer / answer ahead of "
+                "issue), at GC thresholds 1 and default, with collect() after host actions; plus the 96 await/concurrency "
+                "programs of C07 under a reduced policy set. A run is non-trivial when at least one suspension was observed; "
+                "(program, policy) pairs are distinct by construction",
         "exhaustive": "the policy product above for every program with <= 3 deferrable orders",
         "floor": {"quick": 4000, "thorough": 7000},
         "technique": "runtime monitoring: online ledger automaton over the boundary history (StepResult lists, fulfil/settle calls, "
@@ -266,13 +284,14 @@ CHECKS = {
     "C11": {
         "engines": NATIVE,
         "level": "exploration",
-        "rule": "histories on one interpreter: a dead run (26 nesting kinds x 3 fault kinds, at script top level, inside a function and "
-                "as a module body; 7 stalled runs - unanswered order, never-settling promise, imports never supplied, syntax error, "
-                "unhandled rejections -; and runs abandoned by the host after s steps, for EVERY s of each of 26 programs in the "
-                "thorough tier / in both tiers) or a random sequence of 2-3 such runs, followed by 8 observer programs "
-                "(probing every name a dead run declared, re-declaration, completions through finally, labelled loops, generators, "
-                "async functions, modules, awaits, a host order). A history is non-trivial when the dead run really ended the way the "
-                "history says; histories are distinct by construction",
+        "rule": "histories on one interpreter: a dead run (26 nesting kinds x 3 fault kinds, at script top level, inside a "
+                "function and as a module body; 7 stalled runs - unanswered order, never-settling promise, imports never "
+                "supplied, syntax error, unhandled rejections -; and runs abandoned by the host after s steps, for EVERY s of "
+                "each of 26 programs in the thorough tier / in both tiers) or a random sequence of 2-3 such runs, followed by "
+                "11 observer programs (probing every name a dead run declared, importing the dead module again from a script "
+                "and from a module, reading the host-side export table, re-declaration, completions through finally, labelled "
+                "loops, generators, async functions, modules, awaits, a host order). A history is non-trivial when the dead run"
+                " really ended the way the history says; histories are distinct by construction",
         "exhaustive": "every abandonment step of the 26 nesting programs",
         "floor": {"quick": 300, "thorough": 1000},
         "technique": "runtime monitoring: metamorphic oracle (observer on reused vs fresh interpreter) plus H4 quiescence summary after "
@@ -307,12 +326,14 @@ CHECKS = {
         "optional_engines": ["asan", "miri"],
         "crash_is_violation": True,
         "level": "exploration",
-        "rule": "histories over the public Heap/Guard/Gc API in canonical form (guards and objects named in creation order, "
-                "an operation offered only when its operands exist), enumerated exhaustively per family up to the stated depth "
-                "and executed on the real heap in lock-step with a reference model; plus seeded random histories (<=250 named "
-                "objects, <=8000 ops) and churn runs with thousands of objects across chunk (256) and guard-pool (16) boundaries. "
-                "A history counts as non-trivial when at least one collection in it reclaimed at least one object (H1 sweep counter); "
-                "every enumerated history is distinct by construction",
+        "rule": "histories over the public Heap/Guard/Gc API in canonical form (guards and objects named in creation order, an "
+                "operation offered only when its operands exist), enumerated exhaustively per family up to the stated depth and"
+                " executed on the real heap in lock-step with a reference model; plus seeded random histories (<=250 named "
+                "objects, <=8000 ops) churn runs with thousands of objects across chunk (256) and guard-pool (16) boundaries, "
+                "and a guard-pool family (20-40 guards created, filled with roots of different counts, dropped in several "
+                "orders and re-created around collections, so that recycled guard buffers are observed). A history counts as "
+                "non-trivial when at least one collection in it reclaimed at least one object (H1 sweep counter); every "
+                "enumerated history is distinct by construction",
         "exhaustive": "native quick: full alphabet <=3 guards/<=4 objects/<=7 ops (the property's bound), core alphabet <=9 ops at thresholds 0 and 1; "
                       "thorough: 8 / 10 / 10; Miri and ASan: smaller depths (see observed.*family_*_depth)",
         "floor": {"quick": 10000, "thorough": 100000},
@@ -407,15 +428,18 @@ CHECKS = {
         "crash_is_violation": True,
         "miri_ignore_leaks": True,
         "level": "exploration",
-        "rule": "call sequences of 200 C API calls (Miri: 12-16, no script execution) drawn by a driver from a shadow model of handle "
-                "ownership: creation of every value kind, objects / arrays / JSON documents, set / get / has / delete / keys, array push / "
-                "get / len, dup and free in any order, globals, spot checks of every live handle through the inspectors and "
-                "tsrun_json_stringify, forced collections (hundreds of short-lived handles, allocation-heavy scripts), scripts that read "
-                "host-provided globals back, native callbacks that re-enter the API (create values, parse JSON, call script functions, "
-                "throw), tsrun_call with host values, order round trips whose object responses are released right after "
-                "tsrun_fulfill_orders and followed by allocation, module runs with import requests and export tables, and contexts "
-                "freed before their values; plus one unit that passes NULL in every pointer position of every exported function. "
-                "A sequence is non-trivial when a collection reclaimed at least one object while it ran (H1 sweep counter; Miri: every sequence); sequences are distinct by construction",
+        "rule": "call sequences of 200 C API calls (Miri: 12-16, no script execution) drawn by a driver from a shadow model of "
+                "handle ownership: creation of every value kind, objects / arrays / JSON documents, script-made values the C "
+                "API must treat as opaque (symbol-keyed and accessor members, proxies, sparse arrays, frozen / null-prototype "
+                "objects, class instances, functions, typed errors), set / get / has / delete / keys, array push / get / len, "
+                "dup and free in any order, globals, spot checks of every live handle through the inspectors and "
+                "tsrun_json_stringify, forced collections (hundreds of short-lived handles, allocation-heavy scripts), scripts "
+                "that read host-provided globals back, native callbacks that re-enter the API (create values, parse JSON, call "
+                "script functions, throw), tsrun_call with host values, order round trips whose object responses are released "
+                "right after tsrun_fulfill_orders and followed by allocation, module runs with import requests and export "
+                "tables, and contexts freed before their values; plus one unit that passes NULL in every pointer position of "
+                "every exported function. A sequence is non-trivial when a collection reclaimed at least one object while it "
+                "ran (H1 sweep counter; Miri: every sequence); sequences are distinct by construction",
         "exhaustive": "NULL in each pointer parameter of each exported function, one at a time",
         "floor": {"quick": 600, "thorough": 3000},
         "unit_timeout": {"default": 900, "miri": 2400},
